@@ -454,6 +454,20 @@ def run(run):
                         % spelling + "".join("C%d.M : c\n" % j for j in range(ncur)) + "~A\n" + rows)
                 for wrap in (None, True, False):
                     cycle(run, {"kind": "text", "text": text}, dict(PLAIN, wrap=wrap, data_width=dw), {}, 3, ["wrap-spelling"], pend)
+    # an explicit STOP= (STRT= / STEP=) that does not state the data, the same option on every cycle, on an irregularly sampled file
+    # whose header STEP is 0 and whose STRT deliberately differs from the first sample
+    irregular = ("~V\nVERS. 2.0 : v\nWRAP. NO : w\n~W\nSTRT.M 1.0 : s\nSTOP.M 4.75 : s\nSTEP.M 0 : irregular\nNULL. -999.25 : n\n~C\nDEPT.M : d\nA. : a\n"
+                 "~A\n1.0 5\n1.75 6\n3.0 7\n4.75 8\n")
+    for sss in ([["none"], ["f", (9.5).hex()], ["none"]], [["none"], ["i", 7], ["none"]], [["f", (0.5).hex()], ["f", (9.5).hex()], ["none"]],
+                [["none"], ["f", (4.75).hex()], ["none"]], [["none"], ["none"], ["f", (2.0).hex()]], [["none"], ["s", "12.5"], ["none"]]):
+        for ver in (2.0, 1.2):
+            cycle(run, {"kind": "text", "text": irregular}, dict(PLAIN, version=ver, sss=sss), {}, K, ["special:sss-kwargs-irregular"], pend)
+    # a TEXT value that is a comma-separated list of numbers (casing depths): three and more commas between digits
+    for line, sec in (("CSGD.M 1000,1500,2000,2500 : casing depths", ""), ("SHOTS. 10,20,30,40,50 : shots", "~P\n"), ("MIX. 1,5,2,5 : ratio", "~P\n")):
+        text = ("~V\nVERS. 2.0 : v\nWRAP. NO : w\n~W\nSTRT.M 1.0 : s\nSTOP.M 2.0 : s\nSTEP.M 1.0 : s\nNULL. -999.25 : n\n" + ("" if sec else line + "\n") +
+                (sec + line + "\n" if sec else "") + "~C\nDEPT.M : d\nA. : a\n~A\n1.0 5\n2.0 6\n")
+        for ver in (2.0, 1.2):
+            cycle(run, {"kind": "text", "text": text}, dict(PLAIN, version=ver), {}, K, ["special:comma-list"], pend)
     for text, tag in special_docs(rng):
         for j in range(run.budget(2, 6)):
             cfg = PLAIN if j == 0 else gen_cfg(rng, plain=rng.random() < 0.3)
